@@ -178,6 +178,22 @@ func leaves() []leaf {
 		{id: "element-set", kind: "too_small:string", raiser: "Set(value schema String.Min)", code: core.TooSmall, input: map[string]struct{}{"a": {}},
 			build: func(c, s []any) core.ZodSchema { return gozod.Set[string](gozod.String().Min(3)) }, repro: `Set[string](String().Min(3)).Parse({"a"})`},
 
+		// ---- further schema types and checks
+		{id: "type-set", kind: "invalid_type", raiser: "Set", sch: true, code: core.InvalidType, input: 1,
+			build: func(c, s []any) core.ZodSchema { return gozod.Set[string](gozod.String(), s...) }, repro: "Set[string](String(),sch).Parse(1)"},
+		{id: "small-set", kind: "too_small:set", raiser: "Set.Min", chk: true, sch: true, code: core.TooSmall, input: map[string]struct{}{"a": {}},
+			build: func(c, s []any) core.ZodSchema { return gozod.Set[string](gozod.String(), s...).Min(2, c...) }, repro: `Set[string](String(),sch).Min(2,chk).Parse({"a"})`},
+		{id: "union-xor", kind: "invalid_union", raiser: "Xor", sch: true, code: core.InvalidUnion, input: true,
+			build: func(c, s []any) core.ZodSchema { return types.Xor([]any{gozod.String(), gozod.Int()}, s...) }, repro: "Xor([String(),Int()],sch).Parse(true)"},
+		{id: "format-lowercase", kind: "invalid_format:lowercase", raiser: "String.Lowercase", chk: true, sch: true, code: core.InvalidFormat, input: "AB",
+			build: func(c, s []any) core.ZodSchema { return gozod.String(s...).Lowercase(c...) }, repro: `String(sch).Lowercase(chk).Parse("AB")`},
+		{id: "small-string-length", kind: "too_small:string", raiser: "String.Length", chk: true, sch: true, code: core.TooSmall, input: "a",
+			build: func(c, s []any) core.ZodSchema { return gozod.String(s...).Length(3, c...) }, repro: `String(sch).Length(3,chk).Parse("a")`},
+		{id: "small-int-positive", kind: "too_small:number", raiser: "Int.Positive", chk: true, sch: true, code: core.TooSmall, input: -1,
+			build: func(c, s []any) core.ZodSchema { return gozod.Int(s...).Positive(c...) }, repro: "Int(sch).Positive(chk).Parse(-1)"},
+		{id: "small-slice-nonempty", kind: "too_small:array", raiser: "Slice.NonEmpty", chk: true, sch: true, code: core.TooSmall, input: []any{},
+			build: func(c, s []any) core.ZodSchema { return gozod.Slice[any](gozod.String(), s...).NonEmpty(c...) }, repro: `Slice[any](String(),sch).NonEmpty(chk).Parse([])`},
+
 		// ---- custom
 		{id: "custom-refine-string", kind: "custom", raiser: "String.Refine", chk: true, sch: true, code: core.Custom, input: "x",
 			build: func(c, s []any) core.ZodSchema {
@@ -421,6 +437,21 @@ func run(c hx.Config) error {
 		return err
 	}
 	lvs, wrs := leaves(), wrappers()
+	if c.Thorough() {
+		// two levels of nesting: every wrapper inside every wrapper
+		base := wrs
+		for _, outer := range base[1:] {
+			for _, inner := range base[1:] {
+				outer, inner := outer, inner
+				wrs = append(wrs, wrapper{
+					id:   outer.id + ">" + inner.id,
+					wrap: func(s core.ZodSchema) core.ZodSchema { return outer.wrap(inner.wrap(s)) },
+					in:   func(v any) any { return outer.in(inner.in(v)) },
+					desc: outer.desc + " where its S = " + inner.desc,
+				})
+			}
+		}
+	}
 
 	// sanity: every leaf raises its issue at top level with nothing configured
 	bad := []string{}
@@ -447,9 +478,16 @@ func run(c hx.Config) error {
 				appl |= srcS
 			}
 			site := lf.id + "@" + w.id
-			if base, _, _ := runCell(lf, w, 0); base == "panic" {
+			base, _, _ := runCell(lf, w, 0)
+			if base == "panic" {
 				// Parse itself panics here (a C04 matter, reported there): no message to attribute
 				o.Count("skipped:parse-panics:" + site)
+				continue
+			}
+			if base == "n" && strings.Contains(w.id, ">") {
+				// an outer container re-wraps an Array's invalid_element issue and drops its sub-issues:
+				// the leaf issue is not observable in the error, so there is no message to attribute
+				o.Count("skipped:leaf-issue-not-visible:" + w.id)
 				continue
 			}
 			for mask := 0; mask < 32; mask++ {
